@@ -79,6 +79,12 @@ func (t *tlv8Container) SetString(tag uint8, value string) {
 }
 
 func (t *tlv8Container) SetBytes(tag uint8, value []byte) {
+	if len(value) == 0 {
+		// An empty value is an item too (e.g. a separator)
+		t.Items = append(t.Items, tlv8{tag: tag, length: 0, value: []byte{}})
+		return
+	}
+
 	r := bytes.NewBuffer(value)
 
 	for {
